@@ -195,10 +195,11 @@ def make_case(engine, seed):
         case['file'] = [n for n in case['file'] if rng.chance(0.5) or case['persona'][n]['invalid']]
         return case
     if engine.startswith('synth'):
-        case = gen.gen_case(seed, force_faults=rng.pick([[], [], [], ['notimpl'], ['cycle'], ['dup'], ['none']]))
+        case = gen.gen_case(seed, force_faults=rng.pick([[], [], [], ['notimpl'], ['cycle'], ['dup'], ['none']]),
+                            percent=rng.chance(0.12))
         case['prompt'] = True
         case['refuse_at'] = None
-        case['file'] = [n for n in case['file'] if rng.chance(rng.pick([0.0, 0.4, 0.8]))]
+        case['file'] = [n for n in case['file'] if rng.chance(rng.pick([0.0, 0.4, 0.8])) or '%' in case['persona'][n]['text']]
     else:
         from . import shipped_props
         case = shipped_props.make_case(seed, 'C13', flip_p=rng.pick([0.0, 0.0, 0.01]))
